@@ -929,6 +929,12 @@ class Run:
         self.trace.log(ev='QUERY', step=self.step, name=e.name, q=q, exc=exc, ref_exc=ref_exc, client=op.get('client'),
                        fp=canon(self.coarse(ref)) if ref_exc is None else None)
         sig = {'q': q}
+        if exc != ref_exc and self.on_a_discontinuity(q, M, op):
+            # the analysis decides by a comparison that the data sit exactly on (tie on a k/n grid): which side an ulp of
+            # representation noise falls is not a changed answer - the same narrow relaxation as for the values below
+            self.stats.relax('outcome_on_a_discontinuity_' + q)
+            self.check_entry(e, f'after query {q}')
+            return
         if exc != ref_exc:
             self.violation(
                 'query_outcome_depends_on_history',
@@ -1004,6 +1010,9 @@ class Run:
             return f'rdf differs (max {np.nanmax(np.abs(got - ref)):.3g})'
         got = np.asarray(got, dtype=float)
         ref = np.asarray(ref, dtype=float)
+        if q == 'orientations' and (got.shape != ref.shape or not np.allclose(got, ref, rtol=1e-7, atol=1e-8, equal_nan=True)) and self.orientations_ambiguous(M, op):
+            self.stats.relax('orientations_link_criterion_tie')
+            return None
         if got.shape != ref.shape:
             return f'shape {got.shape} vs {ref.shape}'
         if q == 'plot':
@@ -1043,6 +1052,36 @@ class Run:
             return None
         with np.errstate(all='ignore'):
             return f'max abs difference {np.nanmax(np.abs(got - ref)):.3g} (rtol {rtol}, atol {atol:.3g})'
+
+    def on_a_discontinuity(self, q, M, op) -> bool:
+        """Do the model data of this query sit (numerically) exactly on a decision boundary of a discontinuous analysis?"""
+        try:
+            if q == 'transitions':
+                return bool(self.ambiguous_site_entries(M, float(op.get('radius', 0.8)), op.get('inner', 1.0)).any())
+            if q == 'rdf':
+                return self.rdf_ambiguous(M, op)
+            if q == 'orientations':
+                return self.orientations_ambiguous(M, op)
+        except Exception:  # noqa: BLE001
+            return False
+        return False
+
+    def orientations_ambiguous(self, M, op) -> bool:
+        """Orientations links satellites closer than 1.5 x the smallest centre-satellite distance: a tie with that criterion
+        (or a zero distance) makes the number of links depend on the last bit."""
+        from pymatgen.core import Lattice
+
+        L = Lattice(M['lattice'])
+        c = [s == self.sym(op.get('s1', 0)) for s in M['symbols']]
+        t = [s == self.sym(op.get('s2', 1)) for s in M['symbols']]
+        if not any(c) or not any(t):
+            return False
+        d = L.get_all_distances(M['P'][0][c], M['P'][0][t])
+        dmin = float(d.min())
+        if dmin < 1e-9:
+            return True
+        crit = 1.5 * dmin
+        return bool(np.any(np.abs(d - crit) < 1e-7 * crit) or np.sum(np.abs(d - dmin) < 1e-9 * dmin) > 1 and False)
 
     def ambiguous_site_entries(self, M, radius, inner):
         from pymatgen.core import Lattice
